@@ -351,11 +351,20 @@ def standalone(prelude, enc, goal, model_vars=None, timeout_s=120):
     with tempfile.NamedTemporaryFile("w", suffix=".smt2", delete=False) as f:
         f.write(body)
         path = f.name
+    # a chain of solvers: the packaged z3, then the newer z3 build, then cvc5 (timeouts are wall-clock, so a loaded
+    # machine can turn a 20 s proof into `unknown`; a second engine usually decides at once)
+    out = "unknown"
     try:
-        p = subprocess.run(["/usr/bin/z3", "-T:%d" % timeout_s, path], capture_output=True, text=True, timeout=timeout_s + 30)
-        out = p.stdout
-    except subprocess.TimeoutExpired:
-        out = "unknown"
+        for cmd in (["/usr/bin/z3", "-T:%d" % timeout_s, path], ["z3-new", "-T:%d" % (2 * timeout_s), path],
+                    ["/usr/bin/cvc5", "--lang", "smt2", "--produce-models", "--tlimit=%d" % (2000 * timeout_s), path]):
+            try:
+                p = subprocess.run(cmd, capture_output=True, text=True, timeout=2 * timeout_s + 30)
+                out = p.stdout
+            except (subprocess.TimeoutExpired, OSError):
+                out = "unknown"
+            first = out.splitlines()[0].strip() if out.splitlines() else "unknown"
+            if first in ("sat", "unsat"):
+                break
     finally:
         os.unlink(path)
     lines = out.splitlines()
@@ -491,6 +500,10 @@ def replay(prop, rp, path):
             print("VIOLATION property=%s replay=%s" % (prop, path))
             return 1
         return 0
+    if kind == "shapes":
+        import shapes_tv
+
+        return shapes_tv.replay(prop, rp, path)
     import tv_units
 
     return tv_units.replay(prop, rp, path)
